@@ -1229,10 +1229,16 @@ pub fn check(ctx: &Ctx) -> Vec<PartReport> {
             ],
         },
     ));
+    if ctx.tier == crate::engine::Tier::Thorough && !ctx.stop.load(std::sync::atomic::Ordering::Relaxed) {
+        out.push(crate::fuzz::run(ctx, "C13", "key_id", (1_000_000f64 * ctx.scale) as u64, 2048));
+    }
     out
 }
 
 pub fn replay(_ctx: &Ctx, part: &str, case: &Value) -> Outcome {
+    if let Some(t) = part.strip_prefix("fuzz:") {
+        return crate::fuzz::replay(t, case["input_hex"].as_str().unwrap_or(""));
+    }
     match part {
         "imports" => crate::engine::replay_case::<ImportCase>(case, import_prop),
         _ => crate::engine::replay_case::<Case>(case, prop),
